@@ -113,6 +113,10 @@ def run(chk):
             # "all initial U, V, D": entries of either sign and other magnitudes than the seeded defaults
             g0 = gen.nprng(r)
             m.D = np.asarray(m.D) * g0.choice([-1.0, 1.0], size=np.asarray(m.D).shape) * g0.uniform(0.5, 3.0, size=np.asarray(m.D).shape)
+            if i % 3 == 1:
+                dz = np.array(m.D, dtype=float)
+                dz[::2] = 0.0            # entries that are exactly zero: exact EM keeps them at zero, everything stays finite
+                m.D = dz
             if i % 3 == 2:
                 m.U = np.asarray(m.U) * g0.uniform(-2.0, 2.0)
                 m.V = np.asarray(m.V) * g0.uniform(-2.0, 2.0)
@@ -192,6 +196,9 @@ def run(chk):
                     chk.fail("D phase: after E/M iteration %d D is not the exact EM update sum_i G_ij E[z_ij] / sum_i N_ij E[z_ij^2] (entries of either sign allowed)" % (k + 1),
                              dict(ctx, phase="D", got=hexlist(m.D), want=hexlist(want_d)))
                     break
+            if not np.all(np.isfinite(np.asarray(m.D))):
+                chk.fail("D phase: D is not finite after E/M iteration %d" % (k + 1), dict(ctx, phase="D", got=hexlist(m.D)))
+                break
             cur = phase_d_marginal(m, classes, ys, xss)
             traj["D"].append(cur)
             if not cur >= prev - tolr * max(1.0, abs(prev)):
